@@ -49,19 +49,11 @@ Proof.
     destruct (N.leb l h); [|discriminate]. inversion H; subst. reflexivity.
 Qed.
 
-Lemma byte_len_ge v : length v <= byte_len v.
-Proof.
-  induction v as [|c v IH]; [cbn; lia|].
-  change (byte_len (c :: v)) with (utf8_len c + byte_len v). cbn [length].
-  assert (1 <= utf8_len c) by (unfold utf8_len; repeat destruct (N.ltb _ _); lia). lia.
-Qed.
-
-(* a non-multi member denotes no sequence *)
+(* a non-multi member denotes no sequence, a multi member denotes one *)
 Lemma nonmulti_no_seq it : bitem_multi it = false -> item_seq it = None.
 Proof.
   destruct it as [[c|v|v|name]|lo hi]; cbn [bitem_multi batom_multi item_seq]; try reflexivity;
-    intros H; apply Nat.ltb_ge in H; pose proof (byte_len_ge v);
-    destruct (Nat.ltb 1 (length v)) eqn:E; try reflexivity; apply Nat.ltb_lt in E; lia.
+    intros H; rewrite H; reflexivity.
 Qed.
 
 Lemma nonmulti_ok_iff it :
@@ -69,31 +61,22 @@ Lemma nonmulti_ok_iff it :
 Proof.
   destruct it as [[c|v|v|name]|lo hi]; cbn [bitem_multi batom_multi item_ok citem_of]; intros H.
   - reflexivity.
-  - apply Nat.ltb_ge in H. destruct v as [|c [|c2 r]]; try reflexivity.
-    cbn [byte_len fold_right] in H. unfold utf8_len in H. repeat destruct (N.ltb _ _); lia.
-  - apply Nat.ltb_ge in H. destruct v as [|c [|c2 r]]; try reflexivity.
-    cbn [byte_len fold_right] in H. unfold utf8_len in H. repeat destruct (N.ltb _ _); lia.
+  - apply Nat.ltb_ge in H. destruct v as [|c [|c2 r]]; try reflexivity. cbn in H. lia.
+  - apply Nat.ltb_ge in H. destruct v as [|c [|c2 r]]; try reflexivity. cbn in H. lia.
   - rewrite class_defined_iff. destruct (class_of_name name); reflexivity.
   - destruct (endpoint lo), (endpoint hi); try reflexivity. destruct (N.leb n n0); reflexivity.
 Qed.
 
-Lemma multi_ok it : bitem_multi it = true -> item_ok it = true /\ exists v, alt_of it = Some (map SLit v) /\
-  ((item_seq it = Some v /\ forall x, item_has1 it x = false) \/
-   (item_seq it = None /\ exists c, v = [c] /\ forall x, item_has1 it x = N.eqb x c)).
+Lemma multi_ok it : bitem_multi it = true ->
+  item_ok it = true /\
+  exists v, alt_of it = Some (map SLit v) /\ item_seq it = Some v /\ forall x, item_has1 it x = false.
 Proof.
   intros Hm. unfold alt_of. rewrite Hm.
   destruct it as [[c|v|v|name]|lo hi]; cbn [bitem_multi batom_multi] in Hm; try discriminate;
-    apply Nat.ltb_lt in Hm;
-    (destruct v as [|c [|c2 r]]; [cbn in Hm; lia| |]);
-    cbn [item_ok is_nil negb]; (split; [reflexivity|]); eexists; (split; [reflexivity|]).
-  - right. split; [reflexivity|]. exists c. split; [reflexivity|]. intros x.
-    cbn [item_has1 str_eqb list_eqb]. rewrite andb_true_r. apply N.eqb_sym.
-  - left. split; [reflexivity|]. intros x. cbn [item_has1 str_eqb list_eqb].
-    destruct (N.eqb c x); reflexivity.
-  - right. split; [reflexivity|]. exists c. split; [reflexivity|]. intros x.
-    cbn [item_has1 str_eqb list_eqb]. rewrite andb_true_r. apply N.eqb_sym.
-  - left. split; [reflexivity|]. intros x. cbn [item_has1 str_eqb list_eqb].
-    destruct (N.eqb c x); reflexivity.
+    cbn [item_seq]; rewrite Hm; apply Nat.ltb_lt in Hm;
+    (destruct v as [|c [|c2 r]]; [cbn in Hm; lia|cbn in Hm; lia|]);
+    (split; [reflexivity|]); eexists; (split; [reflexivity|]); (split; [reflexivity|]);
+    intros x; cbn [item_has1 str_eqb list_eqb]; destruct (N.eqb c x); reflexivity.
 Qed.
 
 (* ------------------------------------------------------------------ *)
@@ -297,13 +280,9 @@ Proof.
     exists j. replace (j + k0 - j) with k0 by lia. repeat split; try lia; try assumption.
     destruct (all_some_in_map _ _ _ _ Halts Hin) as (it & Hit & Halt).
     destruct (bitem_multi it) eqn:Hm.
-    + destruct (multi_ok it Hm) as (_ & v & Hv & Hcases). rewrite Hv in Halt. inversion Halt; subst alt.
+    + destruct (multi_ok it Hm) as (_ & v & Hv & Hseq & _). rewrite Hv in Halt. inversion Halt; subst alt.
       apply seq_match_lits in Hs as (-> & Hf & _ & _).
-      destruct Hcases as [[Hseq _]|[_ (c & -> & Hh)]].
-      * right. exists it. rewrite Hf. auto.
-      * left. exists c. cbn [length] in Hf. split; [exact Hf|].
-        unfold set_has1. apply existsb_exists. exists it. split; [exact Hit|].
-        rewrite Hh. apply N.eqb_refl.
+      right. exists it. rewrite Hf. auto.
     + unfold alt_of in Halt. rewrite Hm in Halt.
       destruct (citem_of it) as [ci|] eqn:Eci; [|discriminate]. inversion Halt; subst alt.
       destruct s as [|x s0]; [discriminate|]. cbn [seq_match] in Hs.
@@ -323,11 +302,7 @@ Proof.
         destruct (all_some_map_in _ _ _ it Halts Hit) as (alt & Halt & Hin).
         exists alt. split; [exact Hin|].
         destruct (bitem_multi it) eqn:Hm.
-        + destruct (multi_ok it Hm) as (_ & v & Hv & Hcases). rewrite Hv in Halt. inversion Halt; subst alt.
-          destruct Hcases as [[_ Hno]|[_ (c' & -> & Hh')]].
-          * rewrite Hno in Hh. discriminate.
-          * rewrite Hh' in Hh. apply N.eqb_eq in Hh. subst c'.
-            cbn [map seq_match smatch]. rewrite N.eqb_refl. reflexivity.
+        + destruct (multi_ok it Hm) as (_ & v & Hv & _ & Hno). rewrite Hno in Hh. discriminate.
         + unfold alt_of in Halt. rewrite Hm in Halt.
           destruct (citem_of it) as [ci|] eqn:Eci; [|discriminate]. inversion Halt; subst alt.
           cbn [seq_match smatch existsb]. rewrite orb_false_r.
@@ -335,8 +310,7 @@ Proof.
       - destruct (all_some_map_in _ _ _ it Halts Hit) as (alt & Halt & Hin).
         exists alt. split; [exact Hin|].
         destruct (bitem_multi it) eqn:Hm; [|rewrite (nonmulti_no_seq it Hm) in Hseq; discriminate].
-        destruct (multi_ok it Hm) as (_ & v & Hv & Hcases). rewrite Hv in Halt. inversion Halt; subst alt.
-        destruct Hcases as [[Hseq' _]|[Hnone _]]; [|congruence].
+        destruct (multi_ok it Hm) as (_ & v & Hv & Hseq' & _). rewrite Hv in Halt. inversion Halt; subst alt.
         rewrite Hseq' in Hseq. inversion Hseq; subst v.
         assert (Hjl : j = length (firstn j s)) by (rewrite firstn_length_le; auto).
         apply seq_match_lits. rewrite <- Hjl.
@@ -448,43 +422,61 @@ Proof.
 Qed.
 
 (* ------------------------------------------------------------------ *)
-(* the same for every pattern whose complemented bracket expressions are
-   plain (multi-character collating elements allowed elsewhere)          *)
+(* the same for every pattern with closed complements (multi-character
+   collating elements allowed: in a complemented bracket expression they are
+   dropped by the translation and cannot match one character anyway)     *)
 
-Lemma single_width_plain_atom a : single_width_atom a = true -> plain_complement a = true.
+Lemma single_width_closed_atom a : single_width_atom a = true -> closed_complement a = true.
 Proof.
-  destruct a as [c| | |b]; try reflexivity. cbn [single_width_atom plain_complement].
+  destruct a as [c| | |b]; try reflexivity. cbn [single_width_atom closed_complement].
   intros H. apply negb_true_iff in H. rewrite H, andb_false_r. reflexivity.
 Qed.
 
-Lemma single_width_plain a : single_width a = true -> plain_complements a = true.
+Lemma set_has1_filter items x :
+  set_has1 (filter (fun it => negb (bitem_multi it)) items) x = set_has1 items x.
 Proof.
-  unfold single_width, plain_complements. rewrite !forallb_forall.
-  intros H x Hx. apply single_width_plain_atom. apply H. exact Hx.
+  unfold set_has1. induction items as [|it items IH]; [reflexivity|]. cbn [filter existsb].
+  destruct (bitem_multi it) eqn:Hm; cbn [negb].
+  - destruct (multi_ok it Hm) as (_ & v & _ & _ & Hno). rewrite Hno. exact IH.
+  - cbn [existsb]. rewrite IH. reflexivity.
 Qed.
 
-Lemma atom_sem_of_plain a n :
-  plain_complement a = true -> node_of_atom a = Some n -> atom_sem a n.
+(* a complemented bracket expression some of whose members are multi-character *)
+Lemma atom_sem_compl_multi b cs :
+  b_complement b = true ->
+  all_some (map citem_of (filter (fun it => negb (bitem_multi it)) (b_items b))) = Some cs ->
+  atom_sem (ABracket b) (RS (SClass true cs)).
+Proof.
+  intros Hc Hcs. apply (atom_sem_single _ _ (bracket_has1 b)).
+  - apply bracket_lang_single. right. exact Hc.
+  - intros x. cbn [smatch]. unfold bracket_has1. rewrite Hc.
+    rewrite (class_matches _ _ Hcs), set_has1_filter. reflexivity.
+Qed.
+
+Lemma atom_sem_of_closed a n :
+  closed_complement a = true -> node_of_atom a = Some n -> atom_sem a n.
 Proof.
   intros Hp Hn.
   destruct (single_width_atom a) eqn:Hsw; [apply atom_sem_of; assumption|].
   destruct a as [c| | |b]; try discriminate.
-  cbn [single_width_atom plain_complement] in *. apply negb_false_iff in Hsw.
-  rewrite Hsw, andb_true_r in Hp. apply negb_true_iff in Hp.
-  cbn [node_of_atom] in Hn. unfold node_of_bracket in Hn. rewrite Hsw, Hp in Hn. cbn [negb] in Hn.
+  cbn [single_width_atom] in *. apply negb_false_iff in Hsw.
+  cbn [node_of_atom] in Hn. unfold node_of_bracket in Hn. rewrite Hsw in Hn. cbn [negb] in Hn.
   destruct (is_nil (b_items b)); [discriminate|].
-  destruct (all_some (map alt_of (b_items b))) as [alts|] eqn:Ea; [|discriminate].
-  inversion Hn; subst. apply atom_sem_alt; assumption.
+  destruct (b_complement b) eqn:Hc; cbn [negb] in Hn.
+  - destruct (all_some (map citem_of _)) as [cs|] eqn:Ea; [|discriminate].
+    inversion Hn; subst. apply atom_sem_compl_multi; assumption.
+  - destruct (all_some (map alt_of (b_items b))) as [alts|] eqn:Ea; [|discriminate].
+    inversion Hn; subst. apply atom_sem_alt; assumption.
 Qed.
 
-Lemma nodes_sem_plain : forall a ns,
-  plain_complements a = true -> all_some (map node_of_atom a) = Some ns -> Forall2 atom_sem a ns.
+Lemma nodes_sem_closed : forall a ns,
+  closed_complements a = true -> all_some (map node_of_atom a) = Some ns -> Forall2 atom_sem a ns.
 Proof.
   induction a as [|at_ a IH]; intros ns Hp H.
   - inversion H; subst. constructor.
   - destruct (all_some_cons _ _ _ _ H) as (n & ns' & Hn & Hns & ->).
-    unfold plain_complements in Hp. cbn [forallb] in Hp. apply andb_true_iff in Hp as [H1 H2].
-    constructor; [apply atom_sem_of_plain; assumption|apply IH; assumption].
+    unfold closed_complements in Hp. cbn [forallb] in Hp. apply andb_true_iff in Hp as [H1 H2].
+    constructor; [apply atom_sem_of_closed; assumption|apply IH; assumption].
 Qed.
 
 Lemma alt_ok_iff it : item_ok it = is_some (alt_of it).
@@ -494,23 +486,35 @@ Proof.
   - rewrite (nonmulti_ok_iff it Hm). unfold alt_of. rewrite Hm. destruct (citem_of it); reflexivity.
 Qed.
 
-Lemma atom_ok_node_plain a : plain_complement a = true -> atom_ok a = is_some (node_of_atom a).
+Lemma forallb_ok_filter items :
+  forallb item_ok items =
+  forallb (fun it => is_some (citem_of it)) (filter (fun it => negb (bitem_multi it)) items).
+Proof.
+  induction items as [|it items IH]; [reflexivity|]. cbn [forallb filter].
+  destruct (bitem_multi it) eqn:Hm; cbn [negb].
+  - destruct (multi_ok it Hm) as (Hok & _). rewrite Hok. exact IH.
+  - cbn [forallb]. rewrite (nonmulti_ok_iff it Hm), IH. reflexivity.
+Qed.
+
+Lemma atom_ok_node_closed a : closed_complement a = true -> atom_ok a = is_some (node_of_atom a).
 Proof.
   intros Hp. destruct (single_width_atom a) eqn:Hsw; [apply atom_ok_node; exact Hsw|].
   destruct a as [c| | |b]; try discriminate.
-  cbn [single_width_atom plain_complement] in *. apply negb_false_iff in Hsw.
-  rewrite Hsw, andb_true_r in Hp. apply negb_true_iff in Hp.
-  cbn [atom_ok node_of_atom]. unfold node_of_bracket. rewrite Hsw, Hp. cbn [negb].
+  cbn [single_width_atom closed_complement] in *. apply negb_false_iff in Hsw.
+  cbn [atom_ok node_of_atom]. unfold node_of_bracket. rewrite Hsw. cbn [negb].
   destruct (is_nil (b_items b)); [reflexivity|]. cbn [negb andb].
-  transitivity (is_some (all_some (map alt_of (b_items b)))).
-  - rewrite all_some_is_some. apply forallb_ext_in. intros it _. apply alt_ok_iff.
-  - destruct (all_some (map alt_of (b_items b))); reflexivity.
+  destruct (b_complement b) eqn:Hc; cbn [negb].
+  - rewrite forallb_ok_filter, <- all_some_is_some.
+    destruct (all_some (map citem_of _)); reflexivity.
+  - transitivity (is_some (all_some (map alt_of (b_items b)))).
+    + rewrite all_some_is_some. apply forallb_ext_in. intros it _. apply alt_ok_iff.
+    + destruct (all_some (map alt_of (b_items b))); reflexivity.
 Qed.
 
-Lemma valid_nodes_plain a :
-  plain_complements a = true -> valid_ast a = is_some (all_some (map node_of_atom a)).
+Lemma valid_nodes_closed a :
+  closed_complements a = true -> valid_ast a = is_some (all_some (map node_of_atom a)).
 Proof.
   intros Hp. rewrite all_some_is_some. unfold valid_ast. apply forallb_ext_in.
-  intros at_ Hin. apply atom_ok_node_plain. unfold plain_complements in Hp.
+  intros at_ Hin. apply atom_ok_node_closed. unfold closed_complements in Hp.
   rewrite forallb_forall in Hp. apply Hp. exact Hin.
 Qed.
